@@ -20,6 +20,7 @@ type mutant struct {
 	New    string `json:"new"`
 	Expect string `json:"expect"` // rule id that must fire
 	Why    string `json:"why"`
+	Silent bool   `json:"silent"` // behaviour-preserving or harmless edit: no rule may fire
 }
 
 type mutantResult struct {
@@ -101,7 +102,14 @@ func runMutants(id string, o runOpts) ([]mutantResult, bool) {
 					}
 				}
 			}
-			if hit {
+			if m.Silent {
+				if len(res.Fired) == 0 && cmd.ProcessState.ExitCode() == 0 {
+					res.Outcome = "silent (as required)"
+				} else {
+					res.Outcome = "MISSED"
+					res.Detail = "a harmless edit raised an alarm: " + clipStr(string(cmb), 300)
+				}
+			} else if hit {
 				res.Outcome = "detected"
 			} else {
 				res.Outcome = "MISSED"
